@@ -55,6 +55,29 @@ def hand_alias_loop(x: fp.Real, y: fp.Real, xs: list[fp.Real], k: fp.Real):
         r[0] = r[0] + 1
     p, q = (b, a)
     return (c, p, q)''',
+    'hand_alias_deep': '''@fp.fpy
+def hand_alias_deep(x: fp.Real, y: fp.Real, xs: list[fp.Real], k: fp.Real):
+    row = [x, y]
+    other = [y, x]
+    m = [[other, other], [other, other]]
+    m[0][1] = row
+    got = m[0][1]
+    got[0] = 99
+    back = m[1][0]
+    n2 = [m, m]
+    n2[1][0][0] = xs
+    deep = n2[0][0][0]
+    return (row[0], got, back, deep)''',
+    'hand_cond_zip': '''@fp.fpy
+def hand_cond_zip(x: fp.Real, y: fp.Real, xs: list[fp.Real], k: fp.Real):
+    acc = 0
+    ys = xs
+    if x > 100:
+        for a, b in zip(xs, [1.0, 2.0, 3.0]):
+            acc = acc + a * b
+    zs = [e for e in xs]
+    t = [acc + e for e in zs] if y > 100 else [b2 + a2 for a2, b2 in zip(xs, [x, y])]
+    return (acc + len(xs), ys, zs, len(t))''',
     'hand_phi': '''@fp.fpy
 def hand_phi(x: fp.Real, y: fp.Real, xs: list[fp.Real], k: fp.Real):
     a = x
@@ -243,6 +266,17 @@ def annotate(prog, pe, fn, stats):
                     except (Unsupported, OutOfDomain):
                         pass
                 nfacts += 4
+    # facts about the parameters themselves
+    pf = []
+    for a in ast.args:
+        if not isinstance(a.name, NamedId):
+            continue
+        d = du.site_to_def.get((a.name, a))
+        if d is None:
+            continue
+        pf.append({'n': str(a.name), 'ty': ty_json(ti.by_def.get(d)), 'sz': sz_json(sz.by_def.get(d)), 'vc': vc_json(vc.by_def.get(d))})
+    prog['pfacts'] = pf
+    nfacts += 3 * len(pf)
     # may-alias pairs of names: some definitions of the two names share a region
     regs = {}
     for d in al.all_defs():
